@@ -32,7 +32,7 @@ def digits(v, w):
 
 def mk(pid, kinds, strict, source='string', perm=None, widths=None, T=60, sym_ids=False, sort_objects=False, tag='',
        mids=None, may_fail=True, rc_mid=None, sym_rc=None, rc_completed=False, merge_twice=False, ncs_ids=None,
-       same_basename=False, idlen=1, refs=None, readback=False, decl=None):
+       same_basename=False, idlen=1, refs=None, readback=False, decl=None, judge=None):
     """sym_ids: message IDs are symbolic digit strings of the given widths (used where no message fails:
     a failing merge formats its message ID into the error text, which realises the integer and turns
     one path into one path per value); otherwise they are the concrete ``mids``."""
@@ -50,6 +50,8 @@ def mk(pid, kinds, strict, source='string', perm=None, widths=None, T=60, sym_id
         P['rc_mid'] = rc_mid
     P['ncs_ids'] = ncs_ids
     P['readback'] = readback
+    if judge:
+        P['judge'] = judge
     if decl:
         P['decl'] = decl
         tag = (tag + '-' if tag else '') + 'strings-declare-' + decl
@@ -83,7 +85,7 @@ def mk(pid, kinds, strict, source='string', perm=None, widths=None, T=60, sym_id
                 pre.append('m%d != m_rc' % a)
     pre = str_pre(strs, idlen) + distinct(strs) + pre
     kinds_s = '+'.join(kinds) if k <= 4 else '+'.join('%dx%s' % (list(kinds).count(x), x) for x in dict.fromkeys(kinds))
-    cid = '%s/%s/%s/%s' % (pid, kinds_s, 'strict' if strict else 'non-strict', source)
+    cid = '%s/%s/%s/%s' % (pid, kinds_s or 'no-messages', 'strict' if strict else 'non-strict', source)
     if idlen != 1:
         cid += '/padded-or-prefix-ids'
     if perm and len(perm) <= 6:
@@ -126,6 +128,13 @@ def cells(tier):
         for strict in (True, False):
             out.append(mk(PID, tr, strict, 'string', T=T))
             out.append(mk(PID, tr, strict, 'file', T=T, perm=[3, 1, 0, 2], mids=['100', '20', '3']))
+    # the smallest collections: a roCreate on its own, a roCreate and one message (that may fail)
+    for strict in (True, False):
+        for src in ('string', 'file', 's3'):
+            out.append(mk(PID, (), strict, src, T=T, tag='roCreate-only'))
+        out.append(mk(PID, (), strict, 'string', T=T, tag='roCreate-only', merge_twice=True))
+        for kind in ('roStoryMove', 'roDelete', 'roStorySend'):
+            out.append(mk(PID, (kind,), strict, 'string', T=T, tag='one-message'))
     # a message may carry the same messageID as the roCreate (IDs are not guaranteed unique): it is still merged
     for pair in (('roStoryAppend', 'roStoryMove'), ('roStoryDelete', 'roDelete')):
         for strict in (True, False):
